@@ -67,9 +67,10 @@ def run(ctx):
     def add(lines, comments, splitter, tag, text=None):
         if text is None:
             text = render(lines)
-        # what the parser really sees is splitter(text): lex that (the splitter is part of the system under test only
-        # for rows, never for indentation), so that the oracle gets exactly the line sequence
-        seen_lines = splitter(text)
+        # a text is its "\n"-separated lines (the property's reading: nothing else ends a line -- not a form feed, not U+2028, not a lone
+        # carriage return inside a line).  The Huawei splitter additionally drops its policy terminator lines: for it the line sequence is
+        # taken from the splitter.
+        seen_lines = splitter(text) if splitter == huawei.split else text.split("\n")
         lx = lex(seen_lines)
         out = real_parse(text, splitter, comments)
         rid = "%s-%d" % (tag, len(recs))
@@ -129,7 +130,8 @@ def run(ctx):
             ws = " " * ind
             if rnd.random() < 0.05 and ind:
                 ws = "\t" * ind
-            raw.append(ws + rnd.choice(["a", "b", "a b", "c  d", "x y z"]))
+            raw.append(ws + rnd.choice(["a", "b", "a b", "c  d", "x y z", "a b", "c d", "e", "d\u2028e f", "p\x0cq", "m\x85n", "u\x1cv w", "k\rl"]
+                                       if rnd.random() < 0.15 else ["a", "b", "a b", "c  d", "x y z"]))
         text = "\n".join(raw)
         comments = rnd.choice([("!", "#"), ("!", "#"), ("!",), ("#",)])
         sp = rnd.choice([common.split, common.split, huawei.split])
@@ -148,7 +150,7 @@ def replay(ctx, path):
     from annet.annlib import tabparser
     sp = tabparser.CommonFormatter().split
     out = real_parse(rec["text"], sp, tuple(rec["comments"]))
-    rec2 = {"id": "replay", "comments": rec["comments"], "lines": lex(sp(rec["text"])), "err": out["err"], "tree": out["tree"]}
+    rec2 = {"id": "replay", "comments": rec["comments"], "lines": lex(rec["text"].split("\n")), "err": out["err"], "tree": out["tree"]}
     v = ctx.judge("trace/Trace_Offside.tla", "trace/Trace.cfg", [rec2])
     ctx.count()
     if v["replay"][0] != "ok":
